@@ -4,7 +4,7 @@
  *
  * Each line of programs.txt is one program (a behaviour of spec/DTD/Seq.tla printed by TLC, turned into text by the
  * check):
- *     nd=<ND> fl=<A|N|S:d,d,..> w=<window> th=<threshold> ins=<0|1> sp=<min_us>:<max_us> ; <rank> <nacc> d m d m .. ; ...
+ *     nd=<ND> fl=<A|S:d,d,..> w=<window> th=<threshold> ins=<0|1> sp=<min_us>:<max_us> ; <rank> <nacc> d m d m .. ; ...
  * m: 1 = R (PARSEC_INPUT), 2 = W (PARSEC_OUTPUT), 3 = RW (PARSEC_INOUT).  Datum d (1..ND) is tile d-1 of a 1-D
  * block-cyclic collection of one-int tiles (owner (d-1) % world), initial content d*1009.
  *
@@ -34,7 +34,7 @@
 typedef struct { int rank, nacc, d[MAXA], m[MAXA]; } ptask_t;
 typedef struct {
     int nd, nt, window, threshold, ins, spmin, spmax;
-    int flmode;               /* 'A' all, 'N' none before the wait (flush_all only for cleanup), 'S' subset */
+    int flmode;               /* 'A' flush_all, 'S' parsec_dtd_data_flush of the listed data, then flush_all */
     int nfl, fl[MAXD];
     ptask_t t[MAXT + 1];      /* 1-based */
 } prog_t;
@@ -268,31 +268,25 @@ static void run_one(void)
         for( int tid = 1; tid <= cur.nt; tid++ ) insert_one(tp, tid);
     }
 
-    /* flush: tiles exist only for the data that were used */
-    if( 'A' == cur.flmode ) {
-        for( int d = 1; d <= cur.nd; d++ ) if( used[d] ) vt_ev("\"e\":\"Flush\",\"d\":%d", d);
-        parsec_dtd_data_flush_all(tp, A);
-    } else if( 'S' == cur.flmode ) {
+    /* flush: tiles exist only for the data that were used.  Every datum must be flushed before the wait
+     * (insert_function.h); 'S' flushes the listed data one by one with parsec_dtd_data_flush first. */
+    if( 'S' == cur.flmode ) {
         for( int i = 0; i < cur.nfl; i++ ) {
             int d = cur.fl[i];
-            if( d < 1 || d > cur.nd || !used[d] ) continue;
+            if( d < 1 || d > cur.nd || 1 != used[d] ) continue;
             vt_ev("\"e\":\"Flush\",\"d\":%d", d);
             parsec_dtd_data_flush(tp, PARSEC_DTD_TILE_OF_KEY(A, A->data_key(A, d - 1, 0)));
             used[d] = 2;
         }
     }
+    for( int d = 1; d <= cur.nd; d++ ) if( 1 == used[d] ) vt_ev("\"e\":\"Flush\",\"d\":%d", d);
+    parsec_dtd_data_flush_all(tp, A);
     rc = parsec_taskpool_wait(tp);
     PARSEC_CHECK_ERROR(rc, "parsec_taskpool_wait");
     vt_ev("\"e\":\"Wait\"");
     for( int d = 1; d <= cur.nd; d++ ) {
-        int flushed = ('A' == cur.flmode && used[d]) || 2 == used[d];
-        if( flushed && (int)A->rank_of_key(A, A->data_key(A, d - 1, 0)) == myrank )
+        if( used[d] && (int)A->rank_of_key(A, A->data_key(A, d - 1, 0)) == myrank )
             vt_ev("\"e\":\"Owner\",\"d\":%d,\"v\":%d,\"rk\":%d", d, *owner_ptr(d), myrank);
-    }
-    if( 'A' != cur.flmode ) {   /* clean-up of the remaining tiles (not observed) */
-        parsec_dtd_data_flush_all(tp, A);
-        rc = parsec_taskpool_wait(tp);
-        PARSEC_CHECK_ERROR(rc, "parsec_taskpool_wait");
     }
     parsec_taskpool_free(tp);
     rc = parsec_context_wait(parsec);
@@ -306,7 +300,7 @@ static void run_one(void)
 int main(int argc, char **argv)
 {
     char *line = NULL, path[1024]; size_t cap = 0;
-    int provided, threads, skip = 0, pargc = 1, alarm_s = 90;
+    int provided, threads, skip = 0, pargc = 1, alarm_s = 40;
     char *pargv_[2] = { argv[0], NULL }, **pargv = pargv_;
     parsec_arena_datatype_t *adt;
     long nexec = 0;
